@@ -28,6 +28,9 @@ structure App where
   beginAsync : Bool                   -- `begin_auth` returns an awaitable
   pwOK : Nat → Nat → Bool             -- `validate_password(user, password)`
   keyOK : Nat → Nat → Bool            -- key authorised for user (`authorized_keys` / `validate_public_key`)
+  perUserKeys : Bool                  -- the application installs the user's authorized keys in `begin_auth`
+                                      -- (`conn.set_authorized_keys`): a key check consults the keys of the user
+                                      -- for whom `begin_auth` last completed
 
 inductive Reply where
   | success | failure | pkOk
@@ -37,7 +40,7 @@ inductive Reply where
 inductive Call where
   | begin (user : Nat)
   | checkPw (user cred : Nat) (ok : Bool)
-  | checkKey (user key : Nat) (keyOk : Bool) (sig : Option Bool)
+  | checkKey (ctx user key : Nat) (keyOk : Bool) (sig : Option Bool)   -- `ctx`: whose authorized keys were consulted
   deriving Repr, DecidableEq
 
 /-- a `_finish_userauth` task parked on the `begin_auth` awaitable -/
@@ -61,6 +64,7 @@ structure St where
   seq : Nat := 0
   tasks : List Task := []
   auth : Option AuthObj := none
+  begun : Option Nat := none             -- user for whom `begin_auth` last completed (`_auth_begun_username`)
   complete : Option Nat := none          -- authenticated as this user (`get_extra_info('username')`)
   final : Bool := false
   closed : Bool := false
@@ -98,7 +102,12 @@ def createAuth (s : St) (r : Req) : St :=
 
 /-- continuation of `_finish_userauth` after `begin_auth` answered -/
 def afterBegin (app : App) (s : St) (calledUser : Nat) (r : Req) : St :=
+  let s := { s with begun := some calledUser }
   if app.needsAuth calledUser then createAuth s r else sendSuccess s
+
+/-- the user whose authorized keys a key check consults -/
+def keyCtx (app : App) (s : St) (a : AuthObj) : Nat :=
+  if app.perUserKeys then s.begun.getD a.user else a.user
 
 /-- `_process_userauth_request` in the repaired code: a new request aborts what is in progress -/
 def onReq (app : App) (s : St) (r : Req) : St :=
@@ -106,7 +115,7 @@ def onReq (app : App) (s : St) (r : Req) : St :=
   else if s.complete.isSome then
     (if s.final then { s with closed := true } else s)
   else
-    let beginAuth := s.username != some r.user
+    let beginAuth := s.begun != some r.user
     let s1 := { s with username := some r.user, seq := s.seq + 1, auth := none }
     if beginAuth then
       let s2 := { s1 with log := s1.log ++ [.begin r.user], nBegin := s1.nBegin + 1 }
@@ -136,12 +145,12 @@ def onValDone (app : App) (s : St) (k : Nat) : St :=
         let s1 := { s with log := s.log ++ [.checkPw a.user a.req.cred ok] }
         if ok then sendSuccess s1 else sendFailure s1
       | .pkProbe =>
-        let ok := app.keyOK a.user a.req.cred
-        let s1 := { s with log := s.log ++ [.checkKey a.user a.req.cred ok none] }
+        let ok := app.keyOK (keyCtx app s a) a.req.cred
+        let s1 := { s with log := s.log ++ [.checkKey (keyCtx app s a) a.user a.req.cred ok none] }
         if ok then { s1 with out := s1.out ++ [.pkOk], auth := some { a with awaiting := false } } else sendFailure s1
       | .pkSig sigOK =>
-        let ok := app.keyOK a.user a.req.cred
-        let s1 := { s with log := s.log ++ [.checkKey a.user a.req.cred ok (some sigOK)] }
+        let ok := app.keyOK (keyCtx app s a) a.req.cred
+        let s1 := { s with log := s.log ++ [.checkKey (keyCtx app s a) a.user a.req.cred ok (some sigOK)] }
         if ok && sigOK then sendSuccess s1 else sendFailure s1
       | _ => s
 
@@ -153,7 +162,32 @@ def step (app : App) (s : St) : Ev → St
 
 def run (app : App) (evs : List Ev) : St := evs.foldl (step app) {}
 
-/-! ### the code before the repair (kept to state the witness of defect F1) -/
+/-! ### the code before the repairs (kept to state the witnesses of defect F1 and of its second form) -/
+
+/-- `_process_userauth_request` after the first repair (1ef8311) only: requests abort what is in progress, but
+    `begin_auth` is still skipped whenever the user name did not change — even if `begin_auth` never completed
+    for it -/
+def onReqMid (app : App) (s : St) (r : Req) : St :=
+  if s.closed then s
+  else if s.complete.isSome then
+    (if s.final then { s with closed := true } else s)
+  else
+    let beginAuth := s.username != some r.user
+    let s1 := { s with username := some r.user, seq := s.seq + 1, auth := none }
+    if beginAuth then
+      let s2 := { s1 with log := s1.log ++ [.begin r.user], nBegin := s1.nBegin + 1 }
+      if app.beginAsync then { s2 with tasks := s2.tasks ++ [⟨s1.seq, r.user, s1.nBegin, r⟩] }
+      else afterBegin app s2 r.user r
+    else createAuth s1 r
+
+def stepMid (app : App) (s : St) : Ev → St
+  | .req r => onReqMid app s r
+  | .beginDone k => onBeginDone app s k
+  | .valDone k => onValDone app s k
+  | .other => if s.complete.isSome then { s with final := true } else { s with closed := true }
+
+def runMid (app : App) (evs : List Ev) : St := evs.foldl (stepMid app) {}
+
 
 /-- pre-fix `_process_userauth_request`: the user name is switched at once, nothing is aborted, and the
     parked tasks and the live auth object go on; success reports the connection's *current* user name -/
